@@ -57,3 +57,15 @@ Proof.
   eexists. split; [vm_compute; reflexivity|]. reflexivity.
 Qed.
 Print Assumptions C08_mask_zero_columns_refuted.
+
+(* finding C08-assign-iloc-boolean-array-column-key: f.assign.iloc[:, np.array([True, False])](0) -- key_to_ascending_key
+   np.sort()s the Boolean array, so the LAST column is assigned; the specification addresses the first *)
+Theorem C08_assign_boolean_array_refuted :
+  exists (f : mframe) (ck : ckey) (out : oframe * layout),
+    M_frame_assign_unit f None (Some ck) true true false (AElem (VInt 0)) (DInt true 8) (fun a _ => a) = Ok out /\
+    S_frame_assign_ok (mf_oframe f) None (Some ck) (AElem (VInt 0)) VNaN (fst out) = false /\
+    of_cols (fst out) = [(DInt true 8, [VInt 1; VInt 2]); (DInt true 8, [VInt 0; VInt 0])].
+Proof.
+  exists c08_frame, (CMask [true; false]). eexists. split; [vm_compute; reflexivity|]. split; vm_compute; reflexivity.
+Qed.
+Print Assumptions C08_assign_boolean_array_refuted.
